@@ -242,7 +242,9 @@ def run_case(case, agg):
     # ---- unmatched-mode keep: collected + unmatched partition the records read
     unmatched = c.unmatched
     if modes["unmatched-mode"] == "keep" and "collect" in method:
-        read = [(ev["pln"], ev["line"]) for ev in run["rec"].lines if len(ev["line"]) > 0]
+        # "the records read": every record of the file up to where the run stopped reading (counted at track_line),
+        # whether or not the scan part offered it to the matcher
+        read = [(i, [str(x) for x in row]) for i, row in enumerate(rows[: run["records_read"]]) if len(row) > 0]
         ret = {ev["pln"] for ev in run["rec"].lines if ev["ret"]}
         want_un = [ln for (p, ln) in read if p not in ret]
         got_un = [ln for ln in (unmatched or []) if len(ln) > 0]
